@@ -27,3 +27,10 @@ Theorem C02_finish_values : forall c o, wfb c = true ->
   forall t r, In (EFinish t r) (hist (snd (run sched_params c o))) -> r = ref c t.
 Proof. exact (fun c o Hw => proj2 (proj2 (proj2 (run_hist_ok sched_params eq_refl c o Hw)))). Qed.
 Print Assumptions C02_finish_values.
+
+(* Dependency discovery is exact at any nesting depth of tuples and dicts: the tasks found in a parameter value
+   are precisely the tasks occurring in it outside other tasks. *)
+Require Import LT.Model.Values LT.Proofs.ValuesProofs.
+Theorem C02_find_all_depths : forall v t, In t (find_tasks v) <-> Occurs t v.
+Proof. exact find_tasks_exact. Qed.
+Print Assumptions C02_find_all_depths.
